@@ -1730,14 +1730,21 @@ impl Compiler {
     ) -> Result<(), JsError> {
         // Handle super() call
         if matches!(call.callee.as_ref(), Expression::Super(_)) {
-            // Compile arguments (spread not supported for super calls yet)
-            let (args_start, argc, _has_spread) = self.compile_arguments(&call.arguments)?;
+            // Compile arguments; with spread elements they are collected into an array
+            let (args_start, argc, has_spread) = self.compile_arguments(&call.arguments)?;
 
-            self.builder.emit(Op::SuperCall {
-                dst,
-                args_start,
-                argc,
-            });
+            if has_spread {
+                self.builder.emit(Op::SuperCallSpread {
+                    dst,
+                    args_array: args_start,
+                });
+            } else {
+                self.builder.emit(Op::SuperCall {
+                    dst,
+                    args_start,
+                    argc,
+                });
+            }
             return Ok(());
         }
 
